@@ -48,6 +48,13 @@ func propC13(run *Run, n int) {
 	for i := 0; i < n/2; i++ {
 		addC13Text(run, hostileText(r, cfg), cfg.Doc(r, 0))
 	}
+	// JSON Patch documents whose pointers hold a stray or trailing '~' (not an RFC 6901 escape)
+	for _, ptr := range []string{"/a~", "/~", "/a/0/~", "/a~0~", "/a~2b", "/~~0", "/a~/b", "~", "/0~", "/-~"} {
+		for _, op := range []string{`{"op":"add","path":%q,"value":1}`, `{"op":"test","path":%q,"value":1},{"op":"remove","path":%q,"value":1}`, `{"op":"test","path":"/0","value":1},{"op":"add","path":%q,"value":2}`} {
+			txt := "[" + strings.ReplaceAll(op, "%q", fmt.Sprintf("%q", ptr)) + "]"
+			addC13Text(run, txt, VObj("a", VArr(VNum(1)), "a~", VNum(1), "~", VNum(1)))
+		}
+	}
 }
 
 // tailRemovalDiff: a hunk that removes the LAST element of an array of the target (root, or below key "k")
